@@ -19,6 +19,7 @@ import KinModel.Lemmas.C05Str
 import KinModel.Lemmas.C05Dec
 import KinModel.Lemmas.C05Cells
 import KinModel.Lemmas.C05Eq
+import KinModel.Lemmas.C05Nest
 import KinModel.Gen.StyleCells
 namespace KinModel.Style
 
@@ -858,6 +859,114 @@ theorem deep_nested_examples :
     validateParameter ⟨⟨.query, .deepObject, true⟩, ['p'], false, false, nestedSch⟩ { query := [("p[o][x]".toList, [['3']])] } = .accept ∧
     -- a scalar where an object is declared is handed to validation as a string and rejected there
     validateParameter ⟨⟨.query, .deepObject, true⟩, ['p'], false, false, nestedSch⟩ { query := [("p[o]".toList, [['3']])] } = .schema := by
+  decide
+
+/-! ### deepObject at every depth (KinModel/StyleNest.lean: the recursion of makeObject / buildResObj) -/
+
+/-- the node-level round trip, any depth: buildResObj's recursion rebuilds a value from its entries -/
+theorem nest_entries_roundtrip (prim : PT → Str → PR) (f : Nat) (ns : NS) (v : NV) (h : fitsB prim f ns v = true) :
+    nbuild prim f ns (encN v) = some (some v) :=
+  nbuild_encN prim f ns v h
+
+/-- **decode ∘ encode for nested deepObject at every depth**: take any object schema (objects in objects, arrays of
+objects, arrays of arrays … to any depth; no additionalProperties schema) and any value that fits it (`fitsB`: primitive
+texts that read back, arrays without holes, objects selecting declared properties; keys without `]`). Write every
+primitive leaf as `name[k1][k2]…[kn]=text` (`encQ`). Then urlValuesDecoder.DecodeObject — regexp key selection, bracket
+groups, deepSet clash check, buildResObj's recursion with sliceMapToSlice for arrays, the `found` loop — returns exactly
+that value, found, without error: for every parameter name without `[`, both flavours. -/
+theorem nest_roundtrip (prim : PT → Str → PR) (pa : Bool) (name : Str) (hn : '[' ∉ name)
+    (props : List (Str × NS)) (req : List Str) (kvs : List (Str × NV))
+    (hfit : fitsB prim ((NS.obj props req none).depth + 1) (.obj props req none) (.o kvs) = true) :
+    let o := queryNest prim pa name { query := encQ name (encO kvs) } props req none
+    o.val = some kvs ∧ o.found = true ∧ o.err = none := by
+  have hb := nbuild_encN prim _ _ _ hfit
+  have hnc := noClash_encN prim _ _ _ hfit
+  have hsf := segsFree_encN prim _ _ _ hfit
+  have hne := encN_ne_nil prim _ _ _ hfit
+  simp only [encN] at hb hnc hsf hne
+  have hpaths : ∀ a ∈ encO kvs, a.1 ≠ [] := by
+    intro a ha
+    obtain ⟨h1, t1, e1, _⟩ := headsIn_encO kvs a ha
+    simp [e1]
+  have hdp := deepProps_encQ name hn (encO kvs) hpaths hsf
+  have hcl := deepClash_of_noClash (encO kvs) hnc
+  have hmap : (List.map (fun a => (a.1, [a.2])) (encO kvs)).map (fun kv => (kv.1, kv.2.headD [])) = encO kvs := by
+    simp [List.map_map, Function.comp_def]
+  have hfit' := hfit
+  simp only [fitsB, Bool.and_eq_true, Bool.not_eq_true', List.isEmpty_eq_false_iff] at hfit'
+  have hok := kvsOK_of_fitsOB _ props kvs hfit'.2
+  have hprops : props.isEmpty = false := by
+    cases props with
+    | nil =>
+      cases kvs with
+      | nil => exact absurd rfl hfit'.1
+      | cons a b => simp [fitsOB] at hfit'
+    | cons a b => rfl
+  have hfound : nFound props (List.map (fun a => (a.1, [a.2])) (encO kvs)) kvs = true := by
+    cases he : encO kvs with
+    | nil => exact absurd he hne
+    | cons a rest =>
+      have hg := nget_encO prim _ kvs hok a (by rw [he]; simp)
+      simp [nFound, hprops, hg]
+  have hb' : nbuild prim ((NS.obj props req none).depth + 1) (.obj props req none)
+      ((List.map (fun a => (a.1, [a.2])) (encO kvs)).map (fun kv => (kv.1, kv.2.headD []))) = some (some (.o kvs)) := by
+    rw [hmap]; exact hb
+  have hdne : List.map (fun a => (a.1, [a.2])) (encO kvs) ≠ [] := by
+    intro e
+    exact hne (List.map_eq_nil_iff.mp e)
+  simp only [queryNest, hdp]
+  generalize List.map (fun a => (a.1, [a.2])) (encO kvs) = dp at hcl hb' hdne hfound ⊢
+  cases dp with
+  | nil => contradiction
+  | cons d ds =>
+    simp only [hcl, Bool.false_eq_true, if_false]
+    rw [hb']
+    simp [hfound, objFound, hprops]
+
+/-- a schema of depth 5 and a value with objects in objects, an array of objects and an array of arrays: the hypotheses
+of `nest_roundtrip` hold, the keys are the ones a client writes, and the code's flavour decodes them back -/
+def nsDemo : List (Str × NS) :=
+  [(['a'], .prim { t := .integer }),
+   (['o'], .obj [(['x'], .prim { t := .integer }), (['q'], .obj [(['z'], .prim { t := .string }), (['w'], .arr (.prim { t := .integer }))] [] none)] [] none),
+   (['l'], .arr (.obj [(['k'], .prim { t := .integer }), (['s'], .prim { t := .string })] [] none)),
+   (['m'], .arr (.arr (.prim { t := .integer })))]
+
+def nvDemo : List (Str × NV) :=
+  [(['a'], .p (.int 7)),
+   (['o'], .o [(['x'], .p (.int 5)), (['q'], .o [(['z'], .p (.str "dave".toList)), (['w'], .a [.p (.int 1), .p (.int 2)])])]),
+   (['l'], .a [.o [(['k'], .p (.int 3))], .o [(['k'], .p (.int 4)), (['s'], .p (.str ['v']))]]),
+   (['m'], .a [.a [.p (.int 1), .p (.int 2)], .a [.p (.int 3)]])]
+
+theorem nest_demo :
+    fitsB parsePrim ((NS.obj nsDemo [] none).depth + 1) (.obj nsDemo [] none) (.o nvDemo) = true ∧
+    (encQ ['p'] (encO nvDemo)).map (fun kv => kv.1) =
+      ["p[a]", "p[o][x]", "p[o][q][z]", "p[o][q][w][0]", "p[o][q][w][1]", "p[l][0][k]", "p[l][1][k]", "p[l][1][s]",
+       "p[m][0][0]", "p[m][0][1]", "p[m][1][0]"].map String.toList ∧
+    validateNest impl enumHitImpl ⟨['p'], true, false, nsDemo, [], none⟩ { query := encQ ['p'] (encO nvDemo) } = .accept ∧
+    -- a hole in an array of objects is a nil item and rejected by validation; a scalar where an array is declared is a ParseError
+    validateNest impl enumHitImpl ⟨['p'], false, false, nsDemo, [], none⟩ { query := [("p[l][1][k]".toList, [['4']])] } = .schema ∧
+    validateNest impl enumHitImpl ⟨['p'], false, false, nsDemo, [], none⟩ { query := [("p[m][0]".toList, [['4']])] } = .parse ∧
+    validateNest impl enumHitImpl ⟨['p'], false, false, nsDemo, [], none⟩
+      { query := [("p[o][q][w][0]".toList, [['1']]), ("p[o][q]".toList, [['x']])] } = .parse := by
+  decide
+
+/-- on two-level schemas the recursive model and the two-level model of Style.lean (`Leaf.deep`, used by every other
+theorem and by the generator's D1/D2 streams) give the same verdicts: the requests of `deep_nested_examples`, both models -/
+theorem nest_agrees_with_deep_examples :
+    let np : NParam := ⟨['p'], false, false,
+      [(['a'], .prim { t := .integer }), (['l'], .arr (.prim { t := .integer })),
+       (['o'], .obj [(['x'], .prim { t := .integer }), (['y'], .prim { t := .string })] [['x']] none)], [], none⟩
+    let dp : Param := ⟨⟨.query, .deepObject, true⟩, ['p'], false, false, nestedSch⟩
+    [ ({ query := [("p[o][x]".toList, [['5']]), ("p[o][y]".toList, [['w']]), ("p[l][1]".toList, [['2']])] } : Req),
+      { query := [("p[o]".toList, [['1']]), ("p[o][x]".toList, [['2']])] },
+      { query := [("p[o][x]".toList, [['1']]), ("p[o][x][q]".toList, [['2']])] },
+      { query := [("p[o][x]".toList, [['z']])] },
+      { query := [("p[o][y]".toList, [['w']])] },
+      { query := [("p[o][x]".toList, [['3']])] },
+      { query := [("p[o]".toList, [['3']])] },
+      { query := [("p[a]".toList, [['1']]), ("p[a]zz".toList, [['x']])] },
+      { query := [("zz".toList, [['1']])] } ].all
+      (fun r => validateNest impl enumHitImpl np r = validateParameter dp r && validateNest spec enumHitSpec np r = validateSpec dp r) = true := by
   decide
 
 /-! ### where the code and the specification part (exclusion classes), and that they part nowhere else -/
